@@ -53,6 +53,16 @@ bool ops_bias(Ctx &c, Toks const &t)
     if (m->use_grids && m->hills_energy) for (size_t i = 0; i < m->hills_energy->nx.size(); i++) o.push_back(itok(m->hills_energy->nx[i]));
     c.out("nx", join(o));
     c.out("nhills", itok((long long) m->hills.size()));
+    if (m->replicas.size() > 1) {
+      // mirrors of the peers: hills held, and how many of them count as not yet tabulated
+      std::vector<std::string> pr;
+      for (size_t ir = 1; ir < m->replicas.size(); ir++) {
+        pr.push_back(stok(m->replicas[ir]->replica_id));
+        pr.push_back(itok((long long) m->replicas[ir]->hills.size()));
+        pr.push_back(itok((long long) std::distance(m->replicas[ir]->new_hills_begin, m->replicas[ir]->hills.end())));
+      }
+      c.out("peers", join(pr));
+    }
     c.out("noff", itok((long long) m->hills_off_grid.size()));
     if (m->use_grids && m->hills_energy) {
       o.clear(); for (size_t i = 0; i < m->hills_energy->data.size(); i++) o.push_back(ftok(m->hills_energy->data[i]));
